@@ -23,8 +23,9 @@ def rules_table():
 def seeds_table():
     ct = json.load(open(os.path.join(V, "tools", "catch_table.json")))
     out = ["| seeded change | round | what it breaks (site) | reported by |", "|---|---|---|---|"]
-    caught = {1: 0, 2: 0, 3: 0, 4: 0, 5: 0}
-    total = {1: 0, 2: 0, 3: 0, 4: 0, 5: 0}
+    from collections import defaultdict
+    caught = defaultdict(int)
+    total = defaultdict(int)
     for d in sorted(glob.glob(os.path.join(V, "seeded", "C*"))):
         sid = os.path.basename(d)
         m = json.load(open(os.path.join(d, "meta.json")))
